@@ -33,6 +33,8 @@ def run(ctx, rep):
     rep.run(RX.rule_lookup_provenance, ctx, rep, "Q5")
     rep.run(RX.rule_filter_polarities, ctx, rep, "Q5")
     rep.run(RX.rule_names_confirmed, ctx, rep, "Q5")
+    rep.run(RX.rule_member_filter_by_evaluation, ctx, rep, "Q11")
+    rep.run(RX.rule_docstring_literal_roundtrip, ctx, rep, "Q12")
     rep.run(RX.rule_extracted_elements_used, ctx, rep, "Q7")
     rep.run(RX.rule_counter_key_identity, ctx, rep, "Q8")
     rep.run(RF.rule_no_shared_state, ctx, rep, "Q9", packages=("gtwrap/xml_parser",))
